@@ -96,6 +96,37 @@ def consistent(ctx, o, kind, name, real, hist):
     return True
 
 
+def pristine_check(ctx, limit=None):
+    """A sample of the replies seen in this run against the same query made in a pristine process (first-call-wins caches
+    shared by all objects are invisible to the twin and to the run-wide table)."""
+    import json
+    import subprocess
+    import sys
+    limit = limit or ctx.pick(250, 1500)
+    keys = [k for k in TABLE if k[4] is not None or k[3] not in ("pure", "phospho", "derived")]
+    ctx.rng.shuffle(keys)
+    keys = keys[:limit]
+    if not keys:
+        return
+    os.makedirs(ctx.work, exist_ok=True)
+    inp, outp = os.path.join(ctx.work, "pristine_in.json"), os.path.join(ctx.work, "pristine_out.json")
+    json.dump([{"seq": k[0], "sites": list(k[1]), "pal": dict(k[2]), "kind": k[3], "name": k[4]} for k in keys], open(inp, "w"))
+    p = subprocess.run([sys.executable, "-m", "harness.pristine", ctx.repo, inp, outp], cwd=common.VERIF, stdout=subprocess.PIPE,
+                       stderr=subprocess.STDOUT, text=True, timeout=3600)
+    if p.returncode != 0 or not os.path.exists(outp):
+        raise tlc.MachineryError("pristine reference process failed: " + p.stdout[-400:])
+    ref = json.load(open(outp))
+    for k, d in zip(keys, ref):
+        ctx.evaluations += 1
+        if d.startswith("harness-exception:"):
+            raise tlc.MachineryError("pristine reference: " + d)
+        if not objmodel.same_reply(TABLE[k][0], d):
+            ctx.violation("reply-depends-on-history", {"seq": k[0], "sites": list(k[1]), "query": k[4] or k[3], "history": TABLE[k][1],
+                                                       "other_history": "a pristine process: fresh object, this query only"},
+                          expected=d[:300], actual=TABLE[k][0][:300])
+    ctx.extra["replies_compared_with_a_pristine_process"] = len(keys)
+
+
 PROBES = [("pure", None), ("phospho", None), ("html", None), ("kappa", None), ("deltaMaxPerm", "np.bool_"), ("deltaMaxPerm", None)]
 
 
@@ -307,6 +338,7 @@ def run(ctx):
     trs = [record_history(ctx, lc, defaults, i + 1, 3, ctx.rng.randint(30, ctx.pick(80, 200))) for i in range(ctx.pick(12, 80))]
     validate_histories(ctx, trs, 3)
     ctx.sample({"trace": [{"kind": e["kind"], "obj": e["obj"], "name": e.get("name")} for e in trs[0]["ev"][:8]]})
+    pristine_check(ctx)
     defaults.reset()
     ctx.assumptions += ["reply digests are compared exactly (same float bits) with a twin built from the same sequence, sites and palette in a fresh default-argument state",
                         "hidden state is read through plain attributes (SeqObj.dmax, seqDeltaMax, phosphosites, aminoAcidColorMap, __defaults__)"]
